@@ -32,10 +32,11 @@ PROPS = {
     ),
     "C03": dict(
         lean_modules=["L4.Props.C03", "L4.Expect.C03"],
-        stages=[dict(name="relay", pkg="./modules/l4proxy/", test="TestVerifRelay", files=RELAY, nq=150, nt=1500)],
-        level_text="Kernel-checked on a transition system of Handler.proxy and Handle's deferred close (pump goroutine over the chain of TeeReaders, one copy goroutine per upstream counted in the WaitGroup, the main goroutine's wait / CloseWrite / receive, the buffered signal channel) for any number of upstream connections and every interleaving with the client's and the upstreams' sends, half-closes, held-back responses and abrupt closes: what an upstream has received is always a prefix of the client's stream from its first unconsumed byte (exactly the stream minus what is still unread for an upstream that was not reset), the client receives each upstream's bytes in order, nobody observes end-of-stream before the sender finished, a returned handler has closed every upstream connection whatever faults happened, and in every state where nothing can move (no resets, half-close offered, both sides finish) everything was delivered both ways, both sides saw end-of-stream, the handler returned and all upstream connections are closed. The invariant (14 conjuncts) is preserved by all 15 actions. The statement-level protocol the model encodes (tee chain over all upstream conns, copy goroutine per conn in the WaitGroup, pump: copy / signal / half-close all, main: Wait / CloseWrite / receive, capacity of the signal channel, deferred close before proxy, dialPeers closing on error) is regenerated from proxy.go and checked by theorem on every run; the model's terminal state is compared exactly with the real Handle relaying between a client socket and 1-3 loopback upstream servers (TCP and Unix), and every scenario incl. abrupt closes is judged for byte-exactness, end-of-stream propagation, handler return, socket and goroutine leaks.",
-        level_note="Trusted: Lean kernel, extractor AST patterns, harness + driver, io.Copy / io.TeeReader / TCP half-close semantics as modelled (sampled by the differential). Partial: kernel buffering and the exact bytes lost on a reset are environment behaviour (prefix theorems only); downstream conns without CloseWrite (throttle / proxy_protocol wrappers) and UDP are modelled (downCW / upCW parameters) but not exercised; finiteness of runs is argued, not yet a theorem.",
-        rule="relay: 1-3 peers on TCP or Unix listeners, 0-10239 prefetched bytes (beyond the 8192-byte buffer of the pump), 0-5 client chunks and 0-5 chunks per upstream of 1-600000 bytes with 0-2 ms pauses, responses held back until the client's end-of-stream, client half-closing promptly / after it saw end-of-stream / after a pause, abrupt close by the client or one upstream at a random point (1 in 4); non-trivial = scenario completed; distinct = distinct observation lines",
+        stages=[dict(name="relay", pkg="./modules/l4proxy/", test="TestVerifRelay", files=RELAY, nq=150, nt=1500),
+                dict(name="relayudp", pkg="./modules/l4proxy/", test="TestVerifRelayUDP", files=RELAY, nq=20, nt=200, lean=False)],
+        level_text="Kernel-checked on a transition system of Handler.proxy and Handle's deferred close (pump goroutine over the chain of TeeReaders, one copy goroutine per upstream counted in the WaitGroup, the main goroutine's wait / CloseWrite / receive, the buffered signal channel) for any number of upstream connections and every interleaving with the client's and the upstreams' sends, half-closes, held-back responses and abrupt closes: what an upstream has received is always a prefix of the client's stream from its first unconsumed byte (exactly the stream minus what is still unread for an upstream that was not reset), the client receives each upstream's bytes in order, nobody observes end-of-stream before the sender finished, a returned handler has closed every upstream connection whatever faults happened, and in every state where nothing can move (no resets, half-close offered, both sides finish) everything was delivered both ways, both sides saw end-of-stream, the handler returned and all upstream connections are closed. The invariant (15 conjuncts) is preserved by all 15 actions. The statement-level protocol the model encodes (tee chain over all upstream conns, copy goroutine per conn in the WaitGroup, pump: copy / signal / half-close all, main: Wait / CloseWrite / receive, capacity of the signal channel, deferred close before proxy, dialPeers closing on error) is regenerated from proxy.go and checked by theorem on every run; the model's terminal state is compared exactly with the real Handle relaying between a client socket and 1-3 loopback upstream servers (TCP and Unix), and every scenario incl. abrupt closes is judged for byte-exactness, end-of-stream propagation, handler return, socket and goroutine leaks.",
+        level_note="Trusted: Lean kernel, extractor AST patterns, harness + driver, io.Copy / io.TeeReader / TCP half-close semantics as modelled (sampled by the differential). Partial: kernel buffering and the exact bytes lost on a reset are environment behaviour (prefix theorems only); downstream conns without CloseWrite (throttle / proxy_protocol wrappers) are modelled (downCW parameter) but not exercised; datagram upstreams (no half-close) are judged by oracle only; finiteness of runs is argued, not yet a theorem.",
+        rule="relay: 1-3 peers on TCP or Unix listeners, 0-10239 prefetched bytes (beyond the 8192-byte buffer of the pump), 0-5 client chunks and 0-5 chunks per upstream of 1-600000 bytes with 0-2 ms pauses, responses held back until the client's end-of-stream, client half-closing promptly / after it saw end-of-stream / after a pause, abrupt close by the client or one upstream at a random point (1 in 4); relayudp: 1-2 datagram upstreams that answer on the first datagram, client half-closing or closing; non-trivial = scenario completed; distinct = distinct observation lines",
         assumptions=["loopback TCP delivers every byte written before a half-close", "a reset may discard unread bytes (prefix-only judgement in fault scenarios)"],
     ),
     "C17": dict(
@@ -151,10 +152,14 @@ PROPS = {
     ),
     "C06": dict(
         lean_modules=["L4.Props.C06", "L4.Expect.C06"],
-        stages=[dict(MATCH, only_sigs=["socket-read:", "nondeterministic:", "no-not-stable:", "fragment-rejected:", "set-not-conjunction"])],
+        stages=[dict(MATCH, only_sigs=["socket-read:", "nondeterministic:", "no-not-stable:", "fragment-rejected:", "set-not-conjunction"]),
+                # routing across several routes is where fragment-insensitivity is realised (cached verdicts, re-evaluation after a
+                # non-terminal handler): C02's routed traces, judged by the verdict-consistency predicates only
+                dict(name="route", pkg="./layer4/", test="TestVerifRoute", files=L4 + ["layer4/verif_route_test.go"], nq=3000, nt=40000,
+                     only_sigs=["passed-over", "fallback-undecided", "dropped-though-matched", "ran-unmatched"])],
         level_text='Kernel-checked: in matching mode no read pattern reaches the socket or changes the buffer and unfreeze restores the cursor (any matcher); verdict stability, `no` stays `no` and fragmentation safety for every ReadFull-only matcher program, instantiated for ssh, xmpp, postgres, socks4, socks5, proxy_protocol, regexp, tls. Tied to the code by the verdict differential over all sampled prefixes; purity, determinism, monotonicity, routed re-evaluation of fragmented messages on one Connection, and conjunction of matcher sets are judged on the implementation.',
         level_note="Trusted: Lean kernel, harness + driver; io.ReadFull / io.ReadAtLeast on a frozen Connection behave as Prog.run (sampled op-by-op by C01's conn differential, not proved). Known finding: WinBox two-chunk fragments (kernel-checked witness winbox_fragment_rejected_violation). Partial: http's verdict after the request-line test depends on net/http (oracle only); rdp, dns/tcp, openvpn/tcp, winbox are exact-length matchers (yes is not stable by design).",
-        rule='as C14; in addition every message that matches whole (≤ 8192 bytes) is delivered through RouteList.Compile in all two-way splits (≤ 160 bytes) or three random splits, and 1 in 8 messages is evaluated in a two-matcher set; non-trivial = verdict other than `more`',
+        rule='as C14; in addition every message that matches whole (≤ 8192 bytes) is delivered through RouteList.Compile in all two-way splits (≤ 160 bytes) or three random splits, and 1 in 8 messages is evaluated in a two-matcher set; route: C02's random multi-route lists and arrival schedules (routing outcome must be consistent with the matchers' verdicts on the bytes received, whatever the segmentation); non-trivial = verdict other than `more`',
         assumptions=[],
     ),
     "C04": dict(
